@@ -107,7 +107,9 @@ Section V5.
   Let uks := firstn 8 (skipn 40 rnd).
   Let ovs := firstn 8 (skipn 48 rnd).
   Let oks := firstn 8 (skipn 56 rnd).
-  Let Uv := kd_hash_V5 R u uvs [] ++ uvs ++ uks.
+  Let u' := firstn 127 u.
+  Let o' := firstn 127 o.
+  Let Uv := kd_hash_V5 R u' uvs [] ++ uvs ++ uks.
 
   Lemma params_V5_are : kd_compute_parameters ed0 u o rnd = (kd_with_V5 ed0 p, key).
   Proof. reflexivity. Qed.
@@ -120,13 +122,13 @@ Section V5.
   Proof. apply byte_list_firstn. exact Hrb. Qed.
 
   Lemma U_is : iso_U d = Uv. Proof. reflexivity. Qed.
-  Lemma O_is : iso_O d = kd_hash_V5 R o ovs Uv ++ ovs ++ oks. Proof. reflexivity. Qed.
+  Lemma O_is : iso_O d = kd_hash_V5 R o' ovs Uv ++ ovs ++ oks. Proof. reflexivity. Qed.
   Lemma R_is : iso_R d = R. Proof. reflexivity. Qed.
 
-  Lemma U_parts : iso_sub Uv 0 32 = kd_hash_V5 R u uvs [] /\ iso_sub Uv 32 8 = uvs /\ iso_sub Uv 40 8 = uks /\ iso_sub Uv 0 48 = Uv.
+  Lemma U_parts : iso_sub Uv 0 32 = kd_hash_V5 R u' uvs [] /\ iso_sub Uv 32 8 = uvs /\ iso_sub Uv 40 8 = uks /\ iso_sub Uv 0 48 = Uv.
   Proof. destruct salt_len as (?&?&?&?). apply sub3; try assumption. apply hash_length. Qed.
-  Lemma O_parts : iso_sub (iso_O d) 0 32 = kd_hash_V5 R o ovs Uv /\ iso_sub (iso_O d) 32 8 = ovs /\ iso_sub (iso_O d) 40 8 = oks.
-  Proof. destruct salt_len as (?&?&?&?). rewrite O_is. destruct (sub3 (kd_hash_V5 R o ovs Uv) ovs oks) as (?&?&?&_); try assumption; [apply hash_length|auto]. Qed.
+  Lemma O_parts : iso_sub (iso_O d) 0 32 = kd_hash_V5 R o' ovs Uv /\ iso_sub (iso_O d) 32 8 = ovs /\ iso_sub (iso_O d) 40 8 = oks.
+  Proof. destruct salt_len as (?&?&?&?). rewrite O_is. destruct (sub3 (kd_hash_V5 R o' ovs Uv) ovs oks) as (?&?&?&_); try assumption; [apply hash_length|auto]. Qed.
 
   (* /UE and /OE: AES-256-CBC, zero IV, no padding, of the file key under the intermediate key *)
   Lemma wrap_unwrap : forall ik, length ik = 32%nat ->
@@ -143,23 +145,21 @@ Section V5.
     - rewrite iso_cbc_enc_length; try assumption; [rewrite key_len; lia|reflexivity].
   Qed.
 
-  Lemma user_V5 : (length u <= 127)%nat ->
-    iso_is_user_V5 d u = true /\ iso_key_as_user_V5 d u = key.
+  Lemma user_V5 : iso_is_user_V5 d u = true /\ iso_key_as_user_V5 d u = key.
   Proof.
-    intros Hu. destruct U_parts as (H1&H2&H3&H4).
+    destruct U_parts as (H1&H2&H3&H4).
     unfold iso_is_user_V5, iso_key_as_user_V5, iso_pw_V5. rewrite R_is, U_is, H1, H2, H3.
-    rewrite (firstn_all2 u) by lia. rewrite !(hash_agrees R) by exact HR. split; [apply bytes_eqb_refl|].
-    change (iso_UE d) with (kd_process_with_aes (kd_hash_V5 R u uks []) true key 1 None).
+    fold u'. rewrite !(hash_agrees R) by exact HR. split; [apply bytes_eqb_refl|].
+    change (iso_UE d) with (kd_process_with_aes (kd_hash_V5 R u' uks []) true key 1 None).
     apply wrap_unwrap. apply hash_length.
   Qed.
 
-  Lemma owner_V5 : (length o <= 127)%nat ->
-    iso_is_owner_V5 d o = true /\ iso_key_as_owner_V5 d o = key.
+  Lemma owner_V5 : iso_is_owner_V5 d o = true /\ iso_key_as_owner_V5 d o = key.
   Proof.
-    intros Ho. destruct U_parts as (_&_&_&H4). destruct O_parts as (G1&G2&G3).
+    destruct U_parts as (_&_&_&H4). destruct O_parts as (G1&G2&G3).
     unfold iso_is_owner_V5, iso_key_as_owner_V5, iso_pw_V5. rewrite G1, G2, G3, R_is, U_is, H4.
-    rewrite (firstn_all2 o) by lia. rewrite !(hash_agrees R) by exact HR. split; [apply bytes_eqb_refl|].
-    change (iso_OE d) with (kd_process_with_aes (kd_hash_V5 R o oks Uv) true key 1 None).
+    fold o'. rewrite !(hash_agrees R) by exact HR. split; [apply bytes_eqb_refl|].
+    change (iso_OE d) with (kd_process_with_aes (kd_hash_V5 R o' oks Uv) true key 1 None).
     apply wrap_unwrap. apply hash_length.
   Qed.
 
@@ -202,34 +202,34 @@ End V5.
 Definition v5_params_of (R P : N) (id1 : list N) (em : bool) (u o rnd : list N) : enc_data * list N :=
   kd_compute_parameters (base_ed 5 R 32 P id1 em) u o rnd.
 
-(* auth_user / file_key_recovered (R = 5, 6), partial: for user passwords of at most 127 bytes the
-   reader's Algorithm 11 accepts the user password and Algorithm 2.A recovers the file key from /UE;
-   rnd = the 68 bytes the random data provider returned. What is missing for the full statement is
-   refuted below (passwords longer than 127 bytes). *)
-Lemma auth_user_V5_partial_lemma : forall R P id1 em u o rnd,
-  R = 5 \/ R = 6 -> length rnd = 68%nat -> byte_list rnd -> (length u <= 127)%nat ->
+(* auth_user / file_key_recovered (R = 5, 6): for EVERY user password (over-long ones included: writer and
+   reader both truncate to 127 bytes since fix 032abc49) the reader's Algorithm 11 accepts the user password and
+   Algorithm 2.A recovers the file key from /UE; rnd = the 68 bytes the random data provider returned. The reader
+   tries the owner test first; when that test does not also accept the user password the file opens with the key. *)
+Lemma auth_user_V5_lemma : forall R P id1 em u o rnd,
+  R = 5 \/ R = 6 -> length rnd = 68%nat -> byte_list rnd ->
   let edk := v5_params_of R P id1 em u o rnd in
   iso_is_user_V5 (to_iso (fst edk)) u = true /\ iso_key_as_user_V5 (to_iso (fst edk)) u = snd edk /\
   (iso_is_owner_V5 (to_iso (fst edk)) u = false -> iso_open (to_iso (fst edk)) u = Some (snd edk)).
 Proof.
-  intros R P id1 em u o rnd HR Hl Hb Hu edk. subst edk. unfold v5_params_of. rewrite params_V5_are. cbn [fst snd].
-  destruct (user_V5 R P id1 em u o rnd HR Hl Hb Hu) as [H1 H2]. repeat split; try assumption.
+  intros R P id1 em u o rnd HR Hl Hb edk. subst edk. unfold v5_params_of. rewrite params_V5_are. cbn [fst snd].
+  destruct (user_V5 R P id1 em u o rnd HR Hl Hb) as [H1 H2]. repeat split; try assumption.
   intros Hno. unfold iso_open.
   change (iso_R (to_iso (kd_with_V5 (base_ed 5 R 32 P id1 em) (kd_compute_parameters_V5 (base_ed 5 R 32 P id1 em) u o rnd)))) with R.
   replace (R <=? 4) with false by (destruct HR as [-> | ->]; reflexivity).
   unfold iso_open_V5. rewrite Hno, H1, H2. reflexivity.
 Qed.
 
-(* auth_owner / file_key_recovered (R = 5, 6), partial: owner passwords of at most 127 bytes (the empty
-   one included): Algorithm 12 accepts, /OE yields the file key, the reader opens the file as owner. *)
-Lemma auth_owner_V5_partial_lemma : forall R P id1 em u o rnd,
-  R = 5 \/ R = 6 -> length rnd = 68%nat -> byte_list rnd -> (length o <= 127)%nat ->
+(* auth_owner / file_key_recovered (R = 5, 6): for EVERY owner password (the empty one and over-long ones
+   included) Algorithm 12 accepts, /OE yields the file key, the reader opens the file as owner. *)
+Lemma auth_owner_V5_lemma : forall R P id1 em u o rnd,
+  R = 5 \/ R = 6 -> length rnd = 68%nat -> byte_list rnd ->
   let edk := v5_params_of R P id1 em u o rnd in
   iso_is_owner_V5 (to_iso (fst edk)) o = true /\ iso_key_as_owner_V5 (to_iso (fst edk)) o = snd edk /\
   iso_open (to_iso (fst edk)) o = Some (snd edk).
 Proof.
-  intros R P id1 em u o rnd HR Hl Hb Ho edk. subst edk. unfold v5_params_of. rewrite params_V5_are. cbn [fst snd].
-  destruct (owner_V5 R P id1 em u o rnd HR Hl Hb Ho) as [H1 H2]. repeat split; try assumption.
+  intros R P id1 em u o rnd HR Hl Hb edk. subst edk. unfold v5_params_of. rewrite params_V5_are. cbn [fst snd].
+  destruct (owner_V5 R P id1 em u o rnd HR Hl Hb) as [H1 H2]. repeat split; try assumption.
   unfold iso_open.
   change (iso_R (to_iso (kd_with_V5 (base_ed 5 R 32 P id1 em) (kd_compute_parameters_V5 (base_ed 5 R 32 P id1 em) u o rnd)))) with R.
   replace (R <=? 4) with false by (destruct HR as [-> | ->]; reflexivity).
@@ -247,19 +247,3 @@ Proof.
   apply perms_V5; assumption.
 Qed.
 
-(* auth_user / auth_owner for R = 5, 6 REFUTED at full strength: qpdf's compute_encryption_parameters_V5
-   hashes the whole password, every reader truncates to 127 bytes (ISO 32000-2 Algorithm 2.A step a; qpdf's
-   own check_user_password_V5 does the same). Witness: R = 5, user password = 128 x "a", owner password "o",
-   random bytes all 7: neither the password itself nor its 127-byte prefix is accepted, as user or as owner,
-   and the same holds for a 128-byte owner password. (Evaluated by vm_compute on the model; the check
-   observes the same on the real library and CLI: known finding C05-F1.) *)
-Definition c05_long_pw : list N := repeat 97 128%nat.
-Lemma auth_V5_refuted_lemma :
-  let d1 := to_iso (fst (v5_params_of 5 4294967292 [] true c05_long_pw [111] (repeat 7 68%nat))) in
-  let d2 := to_iso (fst (v5_params_of 5 4294967292 [] true [117] c05_long_pw (repeat 7 68%nat))) in
-  length c05_long_pw = 128%nat /\
-  iso_open d1 c05_long_pw = None /\ iso_open d1 (firstn 127 c05_long_pw) = None /\
-  iso_open d2 c05_long_pw = None /\ iso_open d2 (firstn 127 c05_long_pw) = None /\
-  (* while the other password of each file still works *)
-  iso_open d1 [111] = Some (repeat 7 32%nat) /\ iso_open d2 [117] = Some (repeat 7 32%nat).
-Proof. vm_compute. repeat split. Qed.
